@@ -51,6 +51,7 @@ type Term struct {
 	IsConst bool
 	C       uint64   // value for constant BV (w<=64) ; 0/1 for Bool
 	Q       *big.Rat // value for constant Real
+	Deg     int      // upper bound on the polynomial degree of a Real term / of the Real terms a Bool term compares (0 = unknown or constant)
 }
 
 func (t *Term) String() string { return t.S }
@@ -132,7 +133,7 @@ type Solver struct {
 func (s *Solver) ResetPath() { s.symCount = map[string]int{} }
 
 func NewSolver(bin string, timeoutMs int, log io.Writer) (*Solver, error) {
-	args := []string{"-in"}
+	args := []string{"-in", "-memory:6000"} // hard memory cap: a query that blows up ends as an error (= inconclusive), not as an exhausted machine
 	if strings.Contains(bin, "cvc5") {
 		args = []string{"--incremental", "--lang=smt2"}
 	}
@@ -461,7 +462,9 @@ func (s *Solver) Not(a *Term) *Term {
 	if strings.HasPrefix(a.S, "(not ") {
 		return &Term{S: a.S[5 : len(a.S)-1], Sort: BoolSort}
 	}
-	return s.app(BoolSort, "not", a)
+	t := s.app(BoolSort, "not", a)
+	t.Deg = a.Deg
+	return t
 }
 
 func (s *Solver) And(as ...*Term) *Term {
@@ -535,7 +538,14 @@ func (s *Solver) Eq(a, b *Term) *Term {
 	if a.S == b.S {
 		return BoolConst(true)
 	}
-	return s.app(BoolSort, "=", a, b)
+	t := s.app(BoolSort, "=", a, b)
+	if a.Sort.K == SReal {
+		t.Deg = a.Deg
+		if b.Deg > t.Deg {
+			t.Deg = b.Deg
+		}
+	}
+	return t
 }
 
 func sext(v uint64, w int) int64 {
@@ -726,7 +736,33 @@ func (s *Solver) RBin(op string, a, b *Term) *Term {
 			return a
 		}
 	}
-	return s.app(RealSort, op, a, b)
+	// canonical form of the commutative operations (sound rewriting; makes two computations of the
+	// same expression by different operand orders the same term): x + x = 2*x, operands ordered
+	if op == "+" && a == b {
+		return s.RBin("*", RealInt(2), a)
+	}
+	if (op == "+" || op == "*") && a.S > b.S {
+		a, b = b, a
+	}
+	t := s.app(RealSort, op, a, b)
+	da, db := a.Deg, b.Deg
+	if !a.IsConst && da == 0 {
+		da = 1
+	}
+	if !b.IsConst && db == 0 {
+		db = 1
+	}
+	if op == "*" {
+		t.Deg = da + db
+	} else if da > db {
+		t.Deg = da
+	} else {
+		t.Deg = db
+	}
+	if t.Deg > 1<<30 {
+		t.Deg = 1 << 30
+	}
+	return t
 }
 
 func (s *Solver) RNeg(a *Term) *Term { return s.RBin("-", RealInt(0), a) }
